@@ -132,8 +132,9 @@ def move_staticmethod_static_scope(source: str, preserve: Collection[str]) -> st
             attributes_to_preserve.add(node.attr)
 
     static_names = {funcdef.name for funcdef in parsing.iter_funcdefs(root)} | preserve
-    # The moved function must not take the name of anything else the module knows by name
-    static_names |= {node.id for node in core.walk(root, ast.Name)}
+    # The moved function must not take the name of anything else the module binds (reads do not
+    # count: after the first pass they include the uses that already point at the new name)
+    static_names |= {node.id for node in core.walk(root, ast.Name(ctx=ast.Store))}
     static_names |= {node.name for node in core.walk(root, ast.ClassDef)}
     static_names |= {
         alias.asname or alias.name.split(".")[0]
